@@ -134,6 +134,9 @@ theorem push_not_full {c : Cfg} {v : VS} {e : Elem} {w : W} (hfull : ¬ v.len = 
     V.push c v e w = ({ (v.write c v.len e w).1 with len := (v.write c v.len e w).1.len + 1 }, (v.write c v.len e w).2, some ()) := by
   unfold V.push; rw [if_neg hfull]
 
+/-- regroup `(vector, effects, outcome)` as the translator's `(state, outcome)` -/
+def _root_.Prod.toVW {α : Type} (x : VS × W × Outcome α) : VW × Outcome α := ((x.1, x.2.1), x.2.2)
+
 /-- `Vec::push` as translated is the model's `push` -/
 theorem gen_vec_push (c : Cfg) (v : VS) (e : Elem) (w : W) (hl : v.len ≤ capOf c v) (hc : v.cap < USIZE) :
     toModel (Gen.Fn.vec_push c e (v, w)) = V.push c v e w := by
@@ -153,6 +156,35 @@ theorem gen_vec_push (c : Cfg) (v : VS) (e : Elem) (w : W) (hl : v.len ≤ capOf
     rw [push_not_full hfull, hne]
     simp only [Bool.false_eq_true, if_false]
     rw [gen_vec_push_k c e _ _ v w (by omega)]
+
+/-- the same without the `toModel` view: the translated `push` ends `ok` exactly when the model's does, and *panics* (no `bad`
+step, no error value) when the model's is refused -/
+theorem gen_vec_push_k_raw (c : Cfg) (e : Elem) (a r : Nat) (v : VS) (w : W) (h : v.len + 1 < USIZE) :
+    Gen.Fn.vec_push.k_1 c e a r (v, w) =
+      (({ (v.write c v.len e w).1 with len := (v.write c v.len e w).1.len + 1 }, (v.write c v.len e w).2), .ok ()) := by
+  simp only [Gen.Fn.vec_push.k_1, RsM.write, bindW, write_len, h, if_true, RsM.set_len]
+
+theorem gen_vec_push_raw (c : Cfg) (v : VS) (e : Elem) (w : W) (hl : v.len ≤ capOf c v) (hc : v.cap < USIZE) :
+    Gen.Fn.vec_push c e (v, w) =
+      ((V.push c v e w).1, (V.push c v e w).2.1, if (V.push c v e w).2.2.isSome then Outcome.ok () else Outcome.panic).toVW := by
+  have hcap := capOf_lt c v hc
+  simp only [Gen.Fn.vec_push, gen_rv_cap, pureW, bindW]
+  by_cases hfull : v.len = capOf c v
+  · have hb : (v.len == capOf c v) = true := by simpa using hfull
+    rw [if_pos hb, gen_vec_reserve]
+    cases hr : rawReserve c v v.len 1 with
+    | none => rw [push_full_none hfull hr]; rfl
+    | some v1 =>
+      obtain ⟨hlt, hlen⟩ := rawReserve_full_lt hfull hcap hr
+      rw [push_full_some hfull hr]
+      simp only [bindU]
+      rw [gen_vec_push_k_raw c e _ _ v1 w (by omega)]
+      rfl
+  · have hne : (v.len == capOf c v) = false := by simpa using hfull
+    rw [push_not_full hfull, hne]
+    simp only [Bool.false_eq_true, if_false]
+    rw [gen_vec_push_k_raw c e _ _ v w (by omega)]
+    rfl
 
 /-! ### pop -/
 
